@@ -14,6 +14,9 @@
    C <graph> F <N*N obs> [O <nl*N obs>]   spec decision procedures on OBSERVED matrices
         (obs = integer or "inf"):  "full ok|fail", "land ok|fail"
    R <graph> S <src> P <0|1> <fl>          one row (row_fl fl ... src src): "row <1 x N mat>"
+   D <graph>                 big graphs: only "full pq0" and "full fibc" (+ "land pq0", "land fibc"): the Dijkstra
+                             models, which dijkstra_pq_correct / dijkstra_fib_concrete_correct prove equal to sp
+   K <graph> S <src> <N obs> spec decision procedure on ONE observed row: "row ok|fail"  (check_row)
    I <n> <n*n integers>      geodesic table -> "cur <qmat>" "old <qmat>" "mds <qmat>"
    J <n> <n*n integers> B <n*n num/den>   "mds ok|fail"     (check_mds on an observed matrix)
    <mat>  = "<r> <c> e e e ..." (row major, "inf" = None) | "OOB <site> <idx>" | "FUEL"
@@ -113,18 +116,37 @@ let handle line =
             out_trace "ltrace fibc" (landmark_trace_fibc g.nbrs w nn g.lm)
           end
         | "C" ->
+          (* check_matrix nbrs w N obs = mat_eqb obs (sp_matrix nbrs w N) by definition (Dijkstra_Spec.v); the
+             specification matrix is computed once and shared by all observed matrices of the line *)
           let g = read_graph () in
           let w = table_w g.w and nn = nat_of_int g.n in
+          let sp = lazy (sp_matrix g.nbrs w nn) and lsp = lazy (sp_landmarks g.nbrs w nn g.lm) in
           let rec go () =
             match peek () with
             | Some "F" -> ignore (next ());
               let obs = read_obs g.n g.n in
-              print_string (if check_matrix g.nbrs w nn obs then "full ok\n" else "full fail\n"); go ()
+              print_string (if mat_eqb obs (Lazy.force sp) then "full ok\n" else "full fail\n"); go ()
             | Some "O" -> ignore (next ());
               let obs = read_obs (List.length g.lm) g.n in
-              print_string (if check_landmarks g.nbrs w nn g.lm obs then "land ok\n" else "land fail\n"); go ()
+              print_string (if mat_eqb obs (Lazy.force lsp) then "land ok\n" else "land fail\n"); go ()
             | _ -> () in
           go ()
+        | "D" ->
+          let g = read_graph () in
+          let w = table_w g.w and nn = nat_of_int g.n in
+          out "full pq0" (full_matrix PQ g.nbrs w pick_first_min nn);
+          out "full fibc" (full_matrix_fibc g.nbrs w nn);
+          if g.lm <> [] then begin
+            out "land pq0" (landmark_matrix_fixed PQ g.nbrs w pick_first_min nn g.lm);
+            out "land fibc" (landmark_matrix_fibc g.nbrs w nn g.lm)
+          end
+        | "K" ->
+          let g = read_graph () in
+          let w = table_w g.w and nn = nat_of_int g.n in
+          expect "S"; let src = nat_of_int (next_int ()) in
+          (match read_obs 1 g.n with
+           | [obs] -> print_string (if check_row g.nbrs w nn src obs then "row ok\n" else "row fail\n")
+           | _ -> raise (Bad "row"))
         | "R" ->
           let g = read_graph () in
           let w = table_w g.w and nn = nat_of_int g.n in
